@@ -104,7 +104,7 @@ Definition flags_ok (ip4_of : text -> option (list N)) (ip6_of : text -> list N)
     absolutePath u = false /\
     match ip6 u, ipFuture u with
     | None, None => ip4 u = ip4_of h
-    | Some b, None => ip4 u = None /\ b = ip6_of h /\ v_start h = false
+    | Some b, None => ip4 u = None /\ b = ip6_of h /\ v_start h = false /\ h <> []
     | None, Some f => ip4 u = None /\ f = h /\ v_start h = true
     | Some _, Some _ => False
     end
